@@ -23,7 +23,13 @@ def chargeAdductsCompStr (s : List Nat) : Except Err Comp :=
 
 def chargeAdductsComp : ModVal → Except Err Comp
   | .str s => chargeAdductsCompStr (s.map Char.toNat)
-  | _ => .error .typeError
+  | _ => .error .valueError
+
+/-- the adduct groups of the annotation in force (see `adductsValue`) -/
+def effAdducts (a : Annotation) : Option ModVal :=
+  match a.adducts with
+  | some l => adductsValue l
+  | none => none
 
 /-- `_parse_adduct_comp(f'{n}H+')` for an integer `n` (Python builds the text and parses it back; the equality with
 the parser model is checked for |n| ≤ 9 by `decide` in Props/C03 and by correspondence) -/
@@ -211,16 +217,14 @@ def residueComp (seq : List Char) : Except Err Comp :=
 
 /-- building the default adduct text looks the ion type up (KeyError) before anything else happens -/
 def carrierCheck (a : Annotation) (ion : Key) : Except Err Unit :=
-  match a.adducts with
-  | some [] => Except.error Err.indexError
+  match effAdducts a with
   | some _ => pure ()
   | none => if ion = ionP || ion = ionN || (lookup ion Gen.baseAdducts).isSome then pure () else Except.error Err.keyError
 
 /-- the charge carrier as a composition: the stated adducts, else the default for the ion type and charge -/
 def carrierComp (a : Annotation) (ion : Key) : Except Err Comp :=
-  match a.adducts with
-  | some (m :: _) => chargeAdductsComp m.val
-  | some [] => .error .indexError
+  match effAdducts a with
+  | some v => chargeAdductsComp v
   | none => defaultCarrier (a.charge.getD 0) ion
 
 /-- residues + neutral fragment adjustment + charge carrier -/
@@ -286,8 +290,29 @@ def dropLabile (a : Annotation) (ion : Key) : Annotation := if ion = ionP then a
 def clearEmptyAdducts (a : Annotation) : Annotation :=
   match a.adducts with | some [] => { a with adducts := none } | _ => a
 
+/-- is `pat` a substring of `s` (`target in annotation.sequence`) -/
+def isInfix (pat s : List Char) : Bool := !(findAll pat s).isEmpty
+
+/-- one rule whose target does not occur: its modifications are resolved on a probe residue, so that an unresolvable one
+raises (the result is discarded) -/
+def probeRule (env : Env) (seq : List Char) (p : List Char × List Mod) : Except Err Unit :=
+  if p.1 = nTerm || p.1 = cTerm || isInfix p.1 seq then pure ()
+  else do
+    let (_, kept) ← popList env p.2
+    let _ ← addMods env [] kept
+    pure ()
+
+/-- the check `comp_mass` makes before condensing: global rules whose target residue does not occur -/
+def staticProbe (env : Env) (a : Annotation) : Except Err Unit :=
+  match a.static with
+  | none => pure ()
+  | some st => do
+    let map ← env.parseStatic st
+    map.foldlM (fun (_ : Unit) p => probeRule env a.seq p) ()
+
 /-- `comp_mass(annotation, ion_type, charge, isotope, charge_adducts, isotope_mods, use_isotope_on_mods)` -/
 def compMass : CompMassFn := fun env a ion charge isotope adducts isoMods useIso => do
+  staticProbe env (overrideArgs a charge adducts isoMods)
   let a ← condenseStatic env (overrideArgs a charge adducts isoMods)
   let (delta, a) ← popDeltaMassMods env (dropLabile a ion)
   let c ← sequenceComp env (clearEmptyAdducts a) ion isotope useIso
